@@ -49,6 +49,20 @@ Theorem C14_write_then_read :
 Proof. exact write_then_read. Qed.
 Print Assumptions C14_write_then_read.
 
+(* HISTORIES: for every sequence of messages written through one client and every sink schedule, each write is judged on
+   ITS OWN message: refused with nothing written, or its exact frame delivered, or an error with a strict prefix of its
+   frame -- in particular nothing of an earlier (failed or successful) write is emitted by a later one. *)
+Theorem C14_history :
+  forall (msgs : list bytes) (s : schedule), Forall2 write_ok msgs (fst (tpkt_writes msgs s)).
+Proof. exact tpkt_writes_history. Qed.
+Print Assumptions C14_history.
+
+Theorem C14_history_nonvacuous :
+  fst (tpkt_writes [[1; 2; 3]; [9]] [Accept 2; Fail; Accept 9]) =
+    [([3; 0], Err EIo); ([3; 0; 0; 5; 9], Ok tt)].
+Proof. exact tpkt_writes_example. Qed.
+Print Assumptions C14_history_nonvacuous.
+
 Theorem C14_nonvacuous :
   tpkt_write [1; 2; 3; 4; 5; 6; 7; 8] [Accept 5; Accept 5; Accept 5] =
     ([3; 0; 0; 12; 1; 2; 3; 4; 5; 6; 7; 8], Ok tt, []) /\
